@@ -129,10 +129,15 @@ class Fail(Exception):
 def apply_mutator(elfi, k, j, st):
     """mutate model k through one of the four routes the property names; -> description"""
     un = user_nodes(k)
+    sc = [n for n in un if n in st['scal']]
     j = j % 4
+    if j == 2 and len(un) <= 1:
+        j = 1
+    if j == 3 and not sc:
+        j = 1
     if j == 0:
         cur = list(k.parameter_names)
-        new = [n for n in un if n in st['scal'] and n not in cur][:1] or cur[:1]
+        new = [n for n in sc if n not in cur][:1] or cur[:1]
         k.parameter_names = new
         return 'parameter_names = %s' % new
     if j == 1:
@@ -142,7 +147,7 @@ def apply_mutator(elfi, k, j, st):
         leaves = [n for n in un if k.source_net.out_degree(n) == 0]
         k.remove_node(leaves[-1])
         return 'remove_node(%r)' % leaves[-1]
-    tgt = [n for n in un if n in st['scal']][-1]
+    tgt = sc[-1]
     new = elfi.Prior('normal', 0.25, 1.0, model=k, name='rep%d' % st['uid'])
     k[tgt].become(new)
     return '%s.become(Prior)' % tgt
@@ -214,7 +219,10 @@ def step(elfi, m, op, st, check_independence=True, tmp=None):
             return m
         tgt = cands[i % len(cands)]
         sole = [u for u, _, d in G.in_edges(tgt, data=True) if u[0] == '_' and G.degree(u) == 1 and isinstance(d['param'], int)]
-        m.observed.setdefault(tgt, np.zeros((1, 1))) if (i // 5) % 2 else None
+        if (i // 5) % 2:
+            m.observed.setdefault(tgt, np.zeros((1, 1)))
+            for u in sole[:1]:
+                m.observed.setdefault(u, np.zeros((1, 1)))
         before = set(G.nodes)
         m.remove_node(tgt)
         G = m.source_net
@@ -246,6 +254,7 @@ def step(elfi, m, op, st, check_independence=True, tmp=None):
         if g0 != g1:
             raise Fail('c14:copy-generate', 'copy generates different seeded outputs')
         st['nontrivial'] += g0 is not None
+        st['gens'] = st.get('gens', 0) + (g0 is not None)
         if check_independence:
             snap = view(m)
             what = apply_mutator(elfi, k, i, st)
@@ -349,10 +358,10 @@ def run(tier='quick', seed=0, first_failure_only=True, check_independence=True, 
                 cases=cases, nontrivial=nontrivial, failures=failures)
 
 
-def independence_probe():
+def independence_probe(prefer=0):
     """the direct F2 probe: -> failing input or None"""
     elfi = native.import_elfi()
-    for j in range(4):
+    for j in [prefer] + [x for x in range(4) if x != prefer]:
         for v in (0, 1):
             r = run_sequence(elfi, v, [('copy', j)])
             if r['signature'] == INDEP:
